@@ -131,9 +131,28 @@ def cancel_outcomes(rng, real):
     return wipe, outs
 
 
-def gen_scenario(rng, focus, length=None, cfg=None):
+def gen_hook(rng, ntopics, next_sid, allow_stop):
+    """a callback that calls back into the Producer: 1-2 of send_messages / cancel of some send / stop()"""
+    hook = []
+    for _ in range(rng.choice([1, 1, 2])):
+        x = rng.random()
+        if x < 0.4:
+            hook.append(["s", rng.randrange(ntopics), rng.choice(KEYS), gen_msgs(rng)])
+        elif x < 0.75 or not allow_stop:
+            hook.append(["c", rng.randrange(next_sid + 1)])
+        else:
+            hook.append(["x"])
+            allow_stop = False
+    return hook
+
+
+def gen_scenario(rng, focus, length=None, cfg=None, hooks=None):
+    """hooks: probability that a send gets a re-entrant callback (None: 0.12 in a quarter of the scenarios)"""
     cfg = cfg or gen_cfg(rng, focus)
     real = RealRun(cfg)
+    if hooks is None:
+        hooks = 0.12 if rng.random() < 0.25 else 0.0
+    hook_stop_left = 1
     events = []
     length = length or rng.choice([6, 10, 16, 24, 32, 40])
     ntopics = rng.choice([1, 2, 3])
@@ -221,8 +240,18 @@ def gen_scenario(rng, focus, length=None, cfg=None):
             else:
                 emit(["metawipe"])
         else:
-            emit(["send", next_sid, rng.randrange(ntopics), rng.choice(KEYS), gen_msgs(rng)])
-            next_sid += 1
+            if hooks and rng.random() < hooks:
+                hook = gen_hook(rng, ntopics, next_sid, hook_stop_left > 0 and not stopped)
+                if any(a[0] == "x" for a in hook):
+                    hook_stop_left -= 1
+                emit(["sendh", next_sid, rng.randrange(ntopics), rng.choice(KEYS), gen_msgs(rng), hook])
+            else:
+                emit(["send", next_sid, rng.randrange(ntopics), rng.choice(KEYS), gen_msgs(rng)])
+        # sends made by hooks take ids too; a hook may have called stop()
+        next_sid = real.next_sid
+        if real.producer.stopping and not stopped:
+            stopped = True
+            tail = rng.choice([0, 2, 4, 6])
     return {"cfg": cfg, "events": events}, real
 
 
@@ -234,10 +263,19 @@ def normalize(scn):
     out, sidmap, nxt = [], {}, 0
     for ev in scn["events"]:
         op = ev[0]
-        if op == "send":
+        if op in ("send", "sendh"):
+            nxt = real.next_sid
             sidmap[ev[1]] = nxt
-            ev = ["send", nxt] + list(ev[2:])
-            nxt += 1
+            ev = [op, nxt] + list(ev[2:])
+            if op == "sendh":
+                hook = []
+                for a in ev[5]:
+                    if a[0] == "c":
+                        if a[1] in sidmap:
+                            hook.append(["c", sidmap[a[1]]])
+                    else:
+                        hook.append(a)
+                ev = ev[:5] + [hook]
         elif op == "cancel":
             if ev[1] not in sidmap:
                 continue
